@@ -2,7 +2,7 @@
 From Coq Require Import List Bool Arith String.
 Import ListNotations.
 Require Import Nib.C01.Sites Nib.C01.Model.
-Open Scope string_scope.
+Local Open Scope string_scope.
 
 Definition site_is (pkg fn : string) (ord : nat) (s : site) : bool :=
   String.eqb (s_pkg s) pkg && String.eqb (s_fn s) fn && Nat.eqb (s_ord s) ord.
